@@ -1374,7 +1374,8 @@ fn gen_font(rng: &mut Rng, idx: usize) -> GenFont {
     GenFont { design, kind, summary }
 }
 
-/// The confirmed overflow (DESIGN 6.2): a composite whose total point count exceeds 65535.
+/// DESIGN 6.2 (repaired in /repo): a composite whose total point count exceeds 65535 must be
+/// rejected with a diagnostic, not wrapped (release) or panicked on (debug).
 fn overflow_font() -> GenFont {
     let mut a = GlyphSrc::new("a", 500.0);
     // 175 rectangles = 700 points
@@ -1471,6 +1472,7 @@ fn main() {
     let mut errors = 0usize;
     let mut glyph_total = 0usize;
     let mut composite_total = 0usize;
+    let mut overflow_font_rejected = false;
     let mut long_loca = 0usize;
     let mut vertical = 0usize;
     let mut with_layout = 0usize;
@@ -1491,12 +1493,21 @@ fn main() {
             match compile_path(&path, None, None) {
                 Outcome::Panic(m) => emit_violation("compile-panic", format!("fontc panicked: {}", m), ctx),
                 Outcome::Error(m) => {
-                    if m.contains("attempt to add with overflow") && gf.kind == "composite-over-65535-points" {
-                        emit_violation(
-                            "maxp-composite-total-over-u16",
-                            format!("a glyph made of 100 components of a 700-point glyph (70000 points) does not compile in a debug build: {} (release build: exit 0 with maxCompositePoints = 70000 mod 65536 = 4464)", m),
-                            ctx,
-                        );
+                    if gf.kind == "composite-over-65535-points" {
+                        if m.contains("out of bounds") {
+                            // the repaired behaviour: a diagnostic, in every profile
+                            overflow_font_rejected = true;
+                            let table = vec![hk::HookGlyph::Simple(vec![4; 175], [0, 0, 490, 130]), hk::HookGlyph::Composite(vec![0; 100], [0, 0, 589, 130])];
+                            let coq = format!("outcome_is_error (limits_run Checked {} [1%N])", coq_hglyphs(&table));
+                            emit_case(id, "font/composite-over-65535-points", coq, None, true, "f:overflow".into(), json!({"impl": format!("error: {}", m)}));
+                            id += 1;
+                        } else {
+                            emit_violation(
+                                "maxp-composite-total-over-u16",
+                                format!("a glyph made of 100 components of a 700-point glyph (70000 points) is not rejected with a diagnostic but fails with: {}", m),
+                                ctx,
+                            );
+                        }
                     } else {
                         errors += 1;
                         emit_violation("compile-error-on-valid-source", format!("fontc rejected a generated source: {}", m), ctx);
@@ -1504,6 +1515,13 @@ fn main() {
                 }
                 Outcome::Font(bytes) => {
                     compiled += 1;
+                    if gf.kind == "composite-over-65535-points" {
+                        emit_violation(
+                            "maxp-composite-total-over-u16",
+                            "a glyph made of 100 components of a 700-point glyph (70000 points) compiles; maxp.maxCompositePoints cannot hold the total".to_string(),
+                            ctx.clone(),
+                        );
+                    }
                     match decode_font(&bytes) {
                         Err(e) => emit_violation("font-does-not-decode", e, ctx),
                         Ok(f) => {
@@ -1559,31 +1577,46 @@ fn main() {
             let w = want_limits(&glyphs);
             let ctx = json!({"glyphs": format!("{:?}", glyphs)});
             let gl = glyphs.clone();
-            let got = std::panic::catch_unwind(move || hk::limits(&gl));
+            let got: Result<Result<hk::HookLimits, String>, _> = std::panic::catch_unwind(move || hk::limits(&gl));
             let order: Vec<u64> = glyphs.iter().enumerate().filter(|(_, g)| matches!(g, hk::HookGlyph::Composite(..))).map(|(i, _)| i as u64).collect();
-            let model = format!("(limits_run Debug {} {})", coq_hglyphs(&glyphs), coq_list(&order, |x| cn(*x)));
+            let model = format!("(limits_run Checked {} {})", coq_hglyphs(&glyphs), coq_list(&order, |x| cn(*x)));
             match got {
                 Err(p) => {
                     let msg = p.downcast_ref::<String>().cloned().or(p.downcast_ref::<&str>().map(|s| s.to_string())).unwrap_or_default();
                     if w.overflow && msg.contains("overflow") {
-                        overflow_seen += 1;
+                        // the defect repaired in /repo (see known_findings.txt): must not come back
                         emit_violation(
                             "maxp-composite-total-over-u16",
-                            format!("update_composite_limits: a composite totals {} points / {} contours; the u16 sum overflows (debug build: panic '{}'; release build: wraps modulo 65536)", w.comp.pts, w.comp.ctr, msg),
+                            format!("update_composite_limits: a composite totals {} points / {} contours and the sum panics ('{}') instead of being reported as an error", w.comp.pts, w.comp.ctr, msg),
                             ctx,
                         );
-                        emit_case(id, &format!("limits/{kind}"), format!("outcome_is_overflow {}", model), Some(model), true, format!("l:{:?}", glyphs), json!({"impl": "panic: overflow"}));
-                        id += 1;
                     } else {
                         emit_violation("max-builder-panic", format!("MaxBuilder panicked: {}", msg), ctx);
                     }
                 }
-                Ok(l) => {
+                Ok(Err(diag)) => {
+                    // a build error: right exactly when some composite total does not fit maxp's u16 fields
+                    if w.overflow {
+                        overflow_seen += 1;
+                    } else {
+                        emit_violation("maxp-spurious-out-of-bounds", format!("update_composite_limits reports '{}' but every total fits (largest {} points, {} contours, depth {})", diag, w.comp.pts, w.comp.ctr, w.comp.depth), ctx);
+                    }
+                    emit_case(id, &format!("limits/{kind}"), format!("outcome_is_error {}", model), Some(model), true, format!("l:{:?}", glyphs), json!({"impl": format!("error: {}", diag)}));
+                    id += 1;
+                }
+                Ok(Ok(l)) => {
+                    if w.overflow {
+                        emit_violation(
+                            "maxp-composite-total-over-u16",
+                            format!("update_composite_limits: a composite totals {} points / {} contours but the builder returns maxCompositePoints {} / maxCompositeContours {} (wrapped) instead of an error", w.comp.pts, w.comp.ctr, l.max_composite_points, l.max_composite_contours),
+                            ctx.clone(),
+                        );
+                    }
                     let have = [l.max_points, l.max_contours, l.max_composite_points, l.max_composite_contours, l.max_component_elements, l.max_component_depth];
                     let wantv = [w.max_points, w.max_contours, w.comp.pts, w.comp.ctr, w.max_elems, w.comp.depth];
                     let names = ["maxp-max-points", "maxp-max-contours", "maxp-max-composite-points", "maxp-max-composite-contours", "maxp-max-component-elements", "maxp-max-component-depth"];
                     for k in 0..6 {
-                        if have[k] as u64 != wantv[k] {
+                        if have[k] as u64 != wantv[k] && !w.overflow {
                             emit_violation(names[k], format!("builder gives {} but the glyphs give {}", have[k], wantv[k]), ctx.clone());
                         }
                     }
@@ -1619,6 +1652,7 @@ fn main() {
         "fonts_with_vhea": vertical,
         "fonts_with_layout_lookups": with_layout,
         "fonts_by_max_component_depth": depth_hist,
-        "hook_overflow_cases": overflow_seen,
+        "hook_totals_over_u16_reported_as_error": overflow_seen,
+        "font_with_70000_point_composite_rejected_with_diagnostic": overflow_font_rejected,
     }));
 }
